@@ -1145,6 +1145,8 @@ def main():
                       "nsing > 0 is dumped too (permutations, stage, nstages): the report must be the range stage..nstages of the permutations; an untrusted inverse X of the repaired matrix (reported columns := unit "
                       "columns of the reported rows) is checked by the extracted check_sing_report (X multiplies back, its rows singc are left null vectors of B: sing_report_sound), and the extracted "
                       "elimination with the pivots of rank < stage must leave a zero kernel on the reported rows x columns.  Dense fractional matrices of dimension > 16 are sampled for the replay (cost).  "
+                      "E: mpq_ILLfactor_ftran lists its result in the order in which its last phase (ftranu / the depth-first ftranu3) handled the columns with a non-zero value: the extracted "
+                      "listed_order_ok (= triP, the premise of ftranu_order_irrelevant in Fac/TopoOrder.v) is evaluated on every listing against the dumped U.  "
                       "All model runs are under a wall-clock budget; every solve is first screened by an untrusted exact multiply-back, a failing equation is confirmed by the extracted checker.  "
                       "non-trivial = non-singular matrix with at least one judged solve, or a singularity verdict; distinct by script text")
     ck.cov["histogram"] = dict(sorted(hist.items()))
@@ -1158,7 +1160,7 @@ def main():
     ck.cov["not_covered"] = ("the pivot SEARCH of ILLfactor (find_pivot: singleton lists, Markowitz counts, partial pivoting threshold; dense_find_pivot) is not modelled: the elimination is proved and replayed for "
                              "whatever pivot order the library produced; that the search finds a non-zero pivot whenever one exists is tied only through the singular reports (certified exact) and the "
                              "exhaustive small matrices; the space management (make_ur/uc/lc_space, eta space, refactor requests, E_UPDATE_NOSPACE) is explored, not proved; the order of the entries inside "
-                             "a U line / an eta is not modelled (compared as sets); factorization replays of dense fractional matrices of dimension 17..40 are sampled; the sparse "
+                             "a U line / an eta is not modelled (compared as sets); the work-list bookkeeping of the sparse solve variants (delay counters, depth-first recursion) is not modelled: proved is that any topological order with inert skipped nodes gives the dense result, observed (and checked) is the listing order of ftran only; factorization replays of dense fractional matrices of dimension 17..40 are sampled; the sparse "
                              "path of ILLfactor_update (serow_process) is tied to the proved dense-path model by values only; update replays on dense fractional matrices of dimension 17..40 are sampled; "
                              "after a solve stopped at an iteration limit the library refuses tableau queries (no cache), so intermediate bases are observed through pivotin sequences and resumed solves only")
     # only the first 20 violations are printed: interleave the kinds (first of every kind, then the second of every kind, ...)
